@@ -7,6 +7,7 @@
  *   once <id> [<c1> [<c2>]]        callback of once-flag id: registers at-exit callbacks c1, c2 on the calling thread
  *   fail <n> <errno>                the n-th (0-based) pthread_create of the run fails with errno
  *   tick <ns>                       every clock read advances virtual time by ns (spin-waits on the clock end)
+ *   clock <ns>                      virtual time at the start of the run (default 1 s)
  *   run choices <c...> | run sched <t...> | run seed <s> [spurious-permille]
  * actions: L<k> launch slot k | J<k> aws_thread_join on slot k's handle (J<own slot> = self-join: EDEADLK;
  *   after D<k>: EINVAL; never launched / already joined: no-op) | P<k> launch with cpu_id 0 | Q<k> launch with cpu_id 1000, its first pthread_create
@@ -14,8 +15,11 @@
  *   (L3n, Q1n ...) gives the thread a name (options->name) | J<k> aws_thread_join | D<k> aws_thread_clean_up | A<i> register at-exit
  *   callback i | C print managed count | W aws_thread_join_all_managed | T<ns> set managed join timeout
  *   | Y yield (schedule point) | S<ns> aws_thread_current_sleep | O<id> aws_thread_call_once on flag id
- *   | N aws_thread_current_name (prints whether it is the launch name) | X aws_common_library_clean_up (last action of
- *   main; joins all managed threads) | I aws_common_library_init again (the library is initialised once before the first case)
+ *   | E<k> / F<k> / G<k> launch in which pthread_attr_init (ENOMEM) / pthread_attr_setstacksize (stack_size 256 KiB,
+ *   EINVAL) / pthread_attr_getstacksize (EINVAL) fails: the launch fails | H<k> launch with cpu_id 0 in which
+ *   pthread_attr_setaffinity_np fails (EINVAL): the library retries unpinned
+ *   | N aws_thread_current_name (prints whether it is the launch name) | X aws_common_library_clean_up (joins all managed threads, within the
+ *   configured timeout) + aws_common_library_init + print managed count | I aws_common_library_init again (the library is initialised once before the first case)
  * output: P lines in execution order (see printf's below), then "P end ...", "W sched ...", "W ev ..." */
 #include "detsched.h"
 #include "h_common.h"
@@ -24,6 +28,7 @@
 #include <aws/common/string.h>
 #include <aws/common/thread.h>
 #include <errno.h>
+#include <limits.h>
 #include <stdlib.h>
 #include <string.h>
 #include <unistd.h>
@@ -36,6 +41,7 @@
 struct act {
     char op;
     long a;
+    uint64_t u; /* the argument as an unsigned 64-bit number (timeouts at the type limits) */
     int named; /* launch with a non-empty thread name (options->name) */
 };
 
@@ -69,6 +75,7 @@ static struct cbrec s_once_cbs[MAXONCE][2];
 static long s_fail_n = -1;
 static int s_fail_err;
 static uint64_t s_tick;
+static uint64_t s_clock_start;
 static int s_lib_cycled; /* X was used in this case: put the library into a known initialised state afterwards */
 static long s_baseline_blocks;
 
@@ -83,6 +90,8 @@ static void s_reset(void) {
     }
     s_fail_n = -1;
     s_tick = 0;
+    s_clock_start = 0;
+    aws_thread_set_managed_join_timeout_ns(0); /* a case may leave its timeout configured */
     for (int i = 0; i < MAXONCE; ++i) {
         aws_thread_once f = AWS_THREAD_ONCE_STATIC_INIT;
         s_once_flag[i] = f;
@@ -153,7 +162,11 @@ static void s_run_actions(struct slot *s) {
             case 'L':
             case 'P':
             case 'Q':
-            case 'R': {
+            case 'R':
+            case 'E':
+            case 'F':
+            case 'G':
+            case 'H': {
                 struct slot *k = &s_slots[a->a];
                 struct aws_thread_options o = *aws_default_thread_options();
                 if (k->managed) {
@@ -162,7 +175,17 @@ static void s_run_actions(struct slot *s) {
                 if (a->named) {
                     o.name = aws_byte_cursor_from_c_str("c20-thread");
                 }
-                if (a->op == 'P') {
+                if (a->op == 'E') {
+                    ds_fail_next_attr(DS_ATTR_INIT, ENOMEM);
+                } else if (a->op == 'F') {
+                    o.stack_size = 256 * 1024; /* > PTHREAD_STACK_MIN: the library calls pthread_attr_setstacksize */
+                    ds_fail_next_attr(DS_ATTR_SETSTACKSIZE, EINVAL);
+                } else if (a->op == 'G') {
+                    ds_fail_next_attr(DS_ATTR_GETSTACKSIZE, EINVAL);
+                } else if (a->op == 'H') {
+                    o.cpu_id = 0;
+                    ds_fail_next_attr(DS_ATTR_SETAFFINITY, EINVAL);
+                } else if (a->op == 'P') {
                     o.cpu_id = 0;
                 } else if (a->op != 'L') {
                     o.cpu_id = 1000; /* a cpu that does not exist: pthread_create answers EINVAL */
@@ -170,8 +193,10 @@ static void s_run_actions(struct slot *s) {
                 }
                 aws_thread_init(&k->handle, hc_allocator());
                 k->handle_init = 1;
+                int faults = ds_attr_fault_count();
                 int rc = aws_thread_launch(
                     &k->handle, s_thread_fn, k, (a->op != 'L' || a->named || k->managed || (k->id & 1)) ? &o : NULL);
+                HC_CHECK(!strchr("EFGH", a->op) || ds_attr_fault_count() == faults + 1); /* the fault point was reached */
                 printf("P launch s%d by=s%d rc=%s\n", k->id, s->id, hc_err(rc));
                 break;
             }
@@ -208,13 +233,13 @@ static void s_run_actions(struct slot *s) {
                 printf("P count s%d %zu\n", s->id, aws_thread_get_managed_thread_count());
                 break;
             case 'W': {
-                printf("P joinall begin s%d\n", s->id);
+                printf("P joinall begin s%d t=%llu\n", s->id, (unsigned long long)ds_now());
                 int rc = aws_thread_join_all_managed();
-                printf("P joinall rc=%s\n", rc == AWS_OP_SUCCESS ? "OK" : "ERR");
+                printf("P joinall rc=%s t=%llu\n", rc == AWS_OP_SUCCESS ? "OK" : "ERR", (unsigned long long)ds_now());
                 break;
             }
             case 'T':
-                aws_thread_set_managed_join_timeout_ns((uint64_t)a->a);
+                aws_thread_set_managed_join_timeout_ns(a->u);
                 break;
             case 'Y':
                 ds_yield(0);
@@ -234,12 +259,14 @@ static void s_run_actions(struct slot *s) {
                 break;
             }
             case 'X':
-                /* library shut-down: joins all managed threads (no timeout configured by the generator here) */
-                printf("P joinall begin s%d\n", s->id);
+                /* library shut-down (joins all managed threads, within the configured timeout; there is no result)
+                 * and start-up again; then the managed count: what the clean-up left unjoined must still be counted */
+                printf("P joinall begin s%d t=%llu\n", s->id, (unsigned long long)ds_now());
                 aws_common_library_clean_up();
-                aws_common_library_init(hc_allocator()); /* bring the error-name tables back for the rest of the case */
+                printf("P joinall rc=VOID t=%llu\n", (unsigned long long)ds_now());
+                aws_common_library_init(hc_allocator());
                 s_lib_cycled = 1;
-                printf("P joinall rc=OK\n");
+                printf("P count s%d %zu\n", s->id, aws_thread_get_managed_thread_count());
                 break;
             case 'S':
                 aws_thread_current_sleep((uint64_t)a->a);
@@ -258,14 +285,15 @@ static void s_main_fn(void *arg) {
 static int s_parse_actions(struct slot *s, char **t, int from, int n) {
     s->nacts = 0;
     for (int i = from; i < n; ++i) {
-        if (s->nacts == MAXACT || !strchr("LPQRJDACWTYSOINX", t[i][0]) || t[i][0] == 0) {
+        if (s->nacts == MAXACT || !strchr("LPQREFGHJDACWTYSOINX", t[i][0]) || t[i][0] == 0) {
             return 0;
         }
         struct act *a = &s->acts[s->nacts++];
         a->op = t[i][0];
-        a->a = t[i][1] ? atol(t[i] + 1) : 0;
-        a->named = strchr("LPQR", a->op) && t[i][strlen(t[i]) - 1] == 'n';
-        if (strchr("LPQRJD", a->op) && (a->a < 1 || a->a >= MAXSLOT)) {
+        a->u = t[i][1] ? strtoull(t[i] + 1, NULL, 10) : 0;
+        a->a = a->u > (uint64_t)LONG_MAX ? LONG_MAX : (long)a->u;
+        a->named = strchr("LPQREFGH", a->op) && t[i][strlen(t[i]) - 1] == 'n';
+        if (strchr("LPQREFGHJD", a->op) && (a->a < 1 || a->a >= MAXSLOT)) {
             return 0;
         }
     }
@@ -311,6 +339,8 @@ int main(void) {
             s_fail_err = atoi(t[2]);
         } else if (!strcmp(t[0], "tick") && n == 2) {
             s_tick = hc_parse_u64(t[1]);
+        } else if (!strcmp(t[0], "clock") && n == 2) {
+            s_clock_start = hc_parse_u64(t[1]);
         } else if (!strcmp(t[0], "run") && n >= 2) {
             struct ds_config cfg;
             memset(&cfg, 0, sizeof(cfg));
@@ -337,6 +367,7 @@ int main(void) {
             cfg.max_steps = 20000;
             cfg.create_return_point = 1;
             cfg.clock_tick_ns = s_tick;
+            cfg.start_ns = s_clock_start;
             ds_init(&cfg);
             if (s_fail_n >= 0) {
                 ds_inject_create_failure(s_fail_n, s_fail_err);
